@@ -9,6 +9,7 @@ R11.2 the only GrammarAnalysisError variants constructed in grammar_trans are No
 R11.4 monotone change flags: in the fixpoint loops of the analyses (left recursion closure etc.) the `changed` flag is
       only accumulated (`|=`) or set to a constant inside nested loops - a necessary condition for reaching the fixpoint.
 R11.3 the public entry check_and_transform_grammar delegates with an empty ignore set.
+R11.5 sequences of symbols are not measured by set cardinality in the well-formedness analyses (hazard rule, expected count 0).
 Exactness of the computed sets (fixpoints over arbitrary grammars) is NOT decided.
 """
 from .. import cfg
@@ -114,6 +115,7 @@ def check(ctx):
 
     # ---------------------------------------------------------------- R11.4
     monotone_change_flags(ctx, facts, "R11.4", ["parol::analysis", "parol::grammar", "parol::transformation"], 1)
+    occurrence_counts(ctx, facts, "R11.5")
 
     # ---------------------------------------------------------------- R11.3
     cs = entry.calls_to(M + "check_and_transform_grammar_with_ignored")
@@ -187,3 +189,49 @@ def monotone_change_flags(ctx, facts, rule, modules, floor):
 
 
 from .common import fn_key  # noqa: E402
+
+
+WELLFORMEDNESS_MODULES = ("parol::analysis::left_recursion", "parol::analysis::productivity", "parol::analysis::reachability",
+                          "parol::grammar::cfg")
+
+
+def occurrence_counts(ctx, facts, rule):
+    """R11.5 (added after seed C11-b; expected count zero) in the well-formedness analyses (nullability, left recursion, productivity,
+    reachability) a *sequence* of symbols is never measured by the cardinality of a de-duplicating collection: a comparison
+    `set.len() <op> seq.len()` between a HashSet/BTreeSet built in the same function and a Vec / slice / production length treats
+    an alternative with a repeated symbol (`Margin: Blank Blank;`) as if it had fewer symbols.  (Elsewhere such a comparison is a
+    legitimate duplicate check, hence the restriction to these modules.)"""
+    from ..dataflow import operand_term
+    n = 0
+    nbodies = 0
+    for b in facts.in_crate(PA):
+        if not (b.module or "").startswith(WELLFORMEDNESS_MODULES):
+            continue
+        nbodies += 1
+        for bi, si, p, rv, line, mac in b.assigns():
+            if rv[0] != "bin" or rv[1] not in ("Eq", "Ne", "Lt", "Le", "Gt", "Ge"):
+                continue
+            kinds = []
+            for o in (rv[2], rv[3]):
+                t = operand_term(b, o)
+                k = None
+                if t[0] == "call" and (t[1].path or "").split("::")[-1] == "len":
+                    st = t[1].self_ty or ""
+                    k = "set" if ("HashSet" in st or "BTreeSet" in st) else "map" if "Map<" in st else "seq"
+                    if k == "set":
+                        # a set that is a field / parameter is a given collection, not a measurement of this sequence
+                        from ..dataflow import raw_operand_place, single_def
+                        rp = raw_operand_place(b, t[1].args[0]) if t[1].args else None
+                        if not rp or len(rp) > 1 and any(isinstance(e, list) and e[0] == "f" for e in rp[1:]) or rp[0] <= b.nargs:
+                            k = "given-set"
+                kinds.append(k)
+            if "set" in kinds and "seq" in kinds:
+                n += 1
+                ctx.bad(rule, "%s|set-cardinality-vs-sequence-length" % fn_key(b, facts),
+                        "the number of elements of a de-duplicating set built here is compared with the length of a symbol sequence: "
+                        "an alternative that repeats a symbol is measured too short (e.g. nullability of `Margin: Blank Blank;` is "
+                        "missed and a left recursion hidden behind it goes undetected)", where(b, line))
+    ctx.check(n == 0, rule, "well-formedness-analyses|no-set-cardinality-for-sequences",
+              "no comparison of a locally built set's cardinality with a sequence length in %d bodies" % nbodies,
+              "%d such comparison(s)" % n, nontrivial=False)
+    ctx.require_floor(rule, "bodies_scanned", nbodies, 20)
